@@ -232,6 +232,18 @@ def run(repo: Repo) -> Result:
                 state["guard_after_store"] = True
 
     MustFlow(gen=gen2, visit=visit2).run(asg.node)
+    # the guard runs on *every* assignment: its only conjuncts are the limit-enabled test and
+    # the measure comparison (re-binding a name can grow the namespace as much as a new name)
+    for n in ast.walk(asg.node):
+        if isinstance(n, ast.If) and "get_size_of_locals()" in text(n.test):
+            conj = n.test.values if isinstance(n.test, ast.BoolOp) and isinstance(n.test.op, ast.And) else [n.test]
+            extra = [c for c in conj if "local_namespace_limit" not in text(c)]
+            if extra or isinstance(n.test, ast.BoolOp) and isinstance(n.test.op, ast.Or):
+                res.add("C07-LOCALS", asg.qual, f"guard-extra-condition:{text(extra[0])[:30] if extra else 'or'}", f"assign checks the namespace limit only when `{text(extra[0]) if extra else text(n.test)}` holds: assignments that skip the check can grow the namespace past the limit", asg.file, n.lineno)
+    # ... and nothing returns before it
+    for n in walk_no_nested(asg.node):
+        if isinstance(n, ast.Return):
+            res.add("C07-LOCALS", asg.qual, "early-return", "assign returns on some path: the limit check after the store must run on every assignment", asg.file, n.lineno)
     if not state["guard_after_store"]:
         res.add("C07-LOCALS", asg.qual, "guard-after-store", "assign must test get_size_of_locals() > local_namespace_limit after storing the value", asg.file, asg.line)
     gs = repo.own_method("liquid.context.RenderContext", "get_size_of_locals")
@@ -269,8 +281,9 @@ def selftest(repo: Repo):
         v("capture-own-stringio", "liquid/builtin/tags/capture_tag.py", "        buf = context.get_buffer(buffer)\n        self.block.render(context, buf)", "        buf = StringIO()\n        self.block.render(context, buf)", "C07-BUFFER"),
         v("get_buffer-without-parent", "liquid/builtin/tags/ifchanged_tag.py", "        buf = context.get_buffer(buffer)\n        self.block.render(context, buf)", "        buf = context.get_buffer()\n        self.block.render(context, buf)", "C07-BUFFER"),
         v("no-carry", CTX, "        return LimitedStringIO(limit=self.env.output_stream_limit - carry)", "        return LimitedStringIO(limit=self.env.output_stream_limit)", "C07-BUFFER"),
+        v("check-only-new-names", CTX, "        self.locals[key] = val\n        if (\n            self.env.local_namespace_limit is not None\n", "        is_new = key not in self.locals\n        self.locals[key] = val\n        if (\n            is_new\n            and self.env.local_namespace_limit is not None\n", "C07-LOCALS"),
         v("locals-store-elsewhere", "liquid/builtin/tags/assign_tag.py", "        context.assign(self.name, self.expression.evaluate(context))", "        context.locals[self.name] = self.expression.evaluate(context)", "C07-LOCALS"),
-        v("check-before-store", CTX, "        self.locals[key] = val\n        if (\n            self.env.local_namespace_limit\n            and self.get_size_of_locals() > self.env.local_namespace_limit\n        ):\n            raise LocalNamespaceLimitError(\"local namespace limit reached\", token=None)\n", "        if (\n            self.env.local_namespace_limit\n            and self.get_size_of_locals() > self.env.local_namespace_limit\n        ):\n            raise LocalNamespaceLimitError(\"local namespace limit reached\", token=None)\n        self.locals[key] = val\n", "C07-LOCALS"),
+        v("check-before-store", CTX, "        self.locals[key] = val\n        if (\n            self.env.local_namespace_limit is not None\n            and self.get_size_of_locals() > self.env.local_namespace_limit\n        ):\n            raise LocalNamespaceLimitError(\"local namespace limit reached\", token=None)\n", "        if (\n            self.env.local_namespace_limit is not None\n            and self.get_size_of_locals() > self.env.local_namespace_limit\n        ):\n            raise LocalNamespaceLimitError(\"local namespace limit reached\", token=None)\n        self.locals[key] = val\n", "C07-LOCALS"),
         v("copy-drops-size-carry", CTX, "                local_namespace_size_carry=self.get_size_of_locals(),\n            )\n\n        return ctx", "                local_namespace_size_carry=0,\n            )\n\n        return ctx", "C07-LOCALS"),
         v("size-ignores-carry", CTX, "            + self.local_namespace_size_carry\n", "            + 0\n", "C07-LOCALS"),
         v("render-uses-plain-buffer", "liquid/template.py", "        buf = self._get_buffer()\n        self.render_with_context(context, buf)", "        buf = StringIO()\n        self.render_with_context(context, buf)", "C07-"),
